@@ -16,8 +16,11 @@ Inductive smd :=
 | SMset (tbl : list (Z * jv))               (* data["data"] = enc(node.data); return None *)
 | SMwrap (tbl : list (Z * jv))              (* data["data"] = [data["data"], enc(node.data)] *)
 | SMnew (tbl : list (Z * jv)) (keep : bool)  (* return a new dict {"data": enc, "x": 1[, "data_id"]} *)
-| SMextra (tbl : list (Z * jv)).            (* data["t"] = enc(node.data), "data" left alone; the
-                                               decoder reads item["t"] (pinned-suite style) *)
+| SMextra (tbl : list (Z * jv))             (* data["t"] = enc(node.data), "data" left alone; the
+                                               decoder pops item["t"] (pinned-suite style) *)
+| SMguid (tbl : list (Z * jv)).             (* as SMextra, and the id is moved to another key:
+                                               data["g"] = data.pop("data_id"); the decoder pops
+                                               "t" and restores item["data_id"] = item.pop("g") *)
 
 Fixpoint zlookup {X} (k : Z) (l : list (Z * X)) : option X :=
   match l with [] => None | (k', v) :: r => if Z.eqb k k' then Some v else zlookup k r end.
@@ -27,6 +30,10 @@ Definition enc_of (tbl : list (Z * jv)) (i : info) : jv :=
 
 Definition k_x : text := [120].
 Definition k_t : text := [116].
+Definition k_g : text := [103].
+
+Fixpoint dremove (k : text) (d : jdict) : jdict :=
+  match d with [] => [] | (k', v) :: r => if text_eqb k k' then dremove k r else (k', v) :: dremove k r end.
 
 Definition sm_of (m : smd) : smapper :=
   match m with
@@ -38,6 +45,12 @@ Definition sm_of (m : smd) : smapper :=
       [(k_data, enc_of tbl i); (k_x, JInt 1)] ++
       (if keep then match dget k_data_id res with Some v => [(k_data_id, v)] | None => [] end else [])
   | SMextra tbl => fun i res => dset k_t (enc_of tbl i) res
+  | SMguid tbl => fun i res =>
+      dset k_t (enc_of tbl i)
+           (match dget k_data_id res with
+            | Some v => dset k_g v (dremove k_data_id res)
+            | None => res
+            end)
   end.
 
 (* deserialisation: what Python makes of item["data"] (directly, or through the
@@ -51,16 +64,29 @@ Fixpoint jlookup {X} (k : jv) (l : list (jv * X)) : option X :=
 Definition dd_of (dt : list (jv * res info)) : dmapper :=
   dd_raw (fun v => match jlookup v dt with Some r => r | None => inr E_CRASH end).
 
-(* a decoder that reads other entries of the item: the table is keyed by the
-   item's own entries (everything but "children") *)
-Fixpoint dremove (k : text) (d : jdict) : jdict :=
-  match d with [] => [] | (k', v) :: r => if text_eqb k k' then dremove k r else (k', v) :: dremove k r end.
+(* decoders that read other entries of the item and change it: the table is keyed
+   by the item's own entries as handed to the mapper (everything but "children");
+   the second component is the item as the mapper leaves it *)
+Definition head_lookup (dt : list (jv * res info)) (d : jdict) : res info :=
+  match jlookup (JDict (dremove k_children d)) dt with Some r => r | None => inr E_CRASH end.
 
 Definition dd_head (dt : list (jv * res info)) : dmapper :=
-  fun d => match jlookup (JDict (dremove k_children d)) dt with Some r => r | None => inr E_CRASH end.
+  fun d => match head_lookup dt d with
+           | inl i => inl (i, dremove k_t d)
+           | inr e => inr e
+           end.
+
+Definition dd_guid (dt : list (jv * res info)) : dmapper :=
+  fun d => match head_lookup dt d with
+           | inl i => inl (i, match dget k_g d with
+                              | Some v => dset k_data_id v (dremove k_g (dremove k_t d))
+                              | None => dremove k_t d
+                              end)
+           | inr e => inr e
+           end.
 
 Definition dd_for (m : smd) (dt : list (jv * res info)) : dmapper :=
-  match m with SMextra _ => dd_head dt | _ => dd_of dt end.
+  match m with SMextra _ => dd_head dt | SMguid _ => dd_guid dt | _ => dd_of dt end.
 
 Inductive case :=
 | CRound (f : forest) (m : smd) (subs : list Z) (dt : list (jv * res info)) (next : Z)
